@@ -116,22 +116,28 @@ def prepare {β} (ops : BodyOps β) (canon : String → String) (cfg : Cfg) (q :
     .ready m ⟨l.method, targetURL cfg.server.url l.escapedPath q.rawQuery, hostSent cfg.server l.host,
        outHdr, m.payload.content, m.payload.isStream⟩
 
-/-- transport + `buildResponse` for one backend reply; `none` = error (⇒ 500). -/
-def proxyResp {β} (ops : BodyOps β) (cfg : Cfg) (method : String) (outHdr : Hdr) (reply : BackendReply β) :
-    Option (Resp β) :=
-  let r0 := transportReply ops method outHdr reply
-  let r1 := match cfg.compression with
-    | none => r0
-    | some ml => proxyCompress ops ml outHdr r0
-  -- a failing body reader (`transportFails`): when FetchPayload still sees the declared length (no compression,
-  -- no gunzip) its usual path reports the short read; when the length is hidden (`ContentLength = -1` behind the
-  -- gzip compressor or after the transparent gunzip) the wrapper passes the error on (`Payload.fetchFailing`).
-  if transportFails ops method outHdr reply && decide (r1.cl < (0 : Int)) then
+/-- `buildResponse`, first half: the Proxy's `compression:` when configured. -/
+def compressed {β} (ops : BodyOps β) (cfg : Cfg) (outHdr : Hdr) (r0 : Resp β) : Resp β :=
+  match cfg.compression with
+  | none => r0
+  | some ml => proxyCompress ops ml outHdr r0
+
+/-- `buildResponse`, second half: `FetchPayload` on `r1` whose body reader fails (`fails`) or ends normally.
+When FetchPayload still sees the declared length (no compression, no gunzip) its usual path reports the short
+read; when the length is hidden (`ContentLength = -1` behind the gzip compressor or after the transparent
+gunzip) the wrapper passes the reader's error on (`Payload.fetchFailing`). `none` = error (⇒ 500). -/
+def fetchOrFail {β} (ops : BodyOps β) (cfg : Cfg) (isHead : Bool) (fails : Bool) (r1 : Resp β) : Option (Resp β) :=
+  if fails && decide (r1.cl < (0 : Int)) then
     match Payload.fetchFailing cfg.dflt (Payload.effLimit cfg.poolMax cfg.proxyMax) (ops.len r1.payload.content) with
     | .stream => some { r1 with payload := .stream r1.payload.content }
     | _ => none
-  else
-  fetchPayload ops cfg.dflt (Payload.effLimit cfg.poolMax cfg.proxyMax) (method == "HEAD") r1
+  else fetchPayload ops cfg.dflt (Payload.effLimit cfg.poolMax cfg.proxyMax) isHead r1
+
+/-- transport + `buildResponse` for one backend reply; `none` = error (⇒ 500). -/
+def proxyResp {β} (ops : BodyOps β) (cfg : Cfg) (method : String) (outHdr : Hdr) (reply : BackendReply β) :
+    Option (Resp β) :=
+  fetchOrFail ops cfg (method == "HEAD") (transportFails ops method outHdr reply)
+    (compressed ops cfg outHdr (transportReply ops method outHdr reply))
 
 def downstream (cfg : Cfg) : List AdSpec := match cfg.respAd with | none => [] | some a => [a]
 
